@@ -6281,7 +6281,9 @@ class Frame(ContainerOperand):
         '''
         Return a NumPy array of unqiue values. If the axis argument is provied, uniqueness is determined by columns or row.
         '''
-        return ufunc_unique(self.values, axis=axis)
+        array = ufunc_unique(self.values, axis=axis)
+        array.flags.writeable = False
+        return array
 
     #---------------------------------------------------------------------------
     # exporters
